@@ -110,6 +110,13 @@ func contentClasses(r *lp.Rng, n int) [][]byte {
 		copy(c[n/2:n/2+k/2], c[n/2-k/2:n/2])
 		cls = append(cls, a, b, c)
 	}
+	if n > 65600 {
+		// a random block repeated with a period of about 64 KiB (the reach of an LZ4 match offset)
+		for _, period := range []int{65536, 65537} {
+			blk := r.Bytes(period)
+			cls = append(cls, bytes.Repeat(blk, n/period+1)[:n])
+		}
+	}
 	return cls
 }
 
@@ -190,6 +197,12 @@ func runC06(res *lp.Result) {
 		if !bytes.Equal(enc, want) {
 			res.Add(lp.Finding{Kind: "violation", What: "emitted segment bytes differ from the v5 framing layout (" + cname + ")", Input: id + " payload=" + hx(p[:minInt(len(p), 64)]),
 				Impl: hx(enc[:minInt(len(enc), 80)]), Model: hx(want[:minInt(len(want), 80)])})
+		}
+		if cname == "lz4" && len(p) > 60000 && lz4LibraryFails(p) {
+			// the third-party block functions alone do not restore this payload (they fail, or restore other bytes without an
+			// error): nothing the segment codec does can be judged on it
+			res.Add(lp.Finding{Kind: "violation", What: lz4LibraryWhat + ": encoded segment does not decode", Input: id + " payload=" + hx(p[:minInt(len(p), 64)])})
+			return
 		}
 		trailer := rng.Bytes(rng.Intn(4))
 		all := append(append([]byte{}, enc...), trailer...)
@@ -874,6 +887,11 @@ func runC08(res *lp.Result) {
 			copy(b[:k], make([]byte, k))
 			classes["noise-then-run"], classes["run-then-noise"] = a, b
 		}
+		if sz > 65600 {
+			blk := rng.Bytes(65537)
+			classes["period-65537"] = bytes.Repeat(blk, sz/65537+1)[:sz]
+			classes["period-65536"] = bytes.Repeat(blk[:65536], sz/65536+1)[:sz]
+		}
 		for cl, in := range classes {
 			if sz <= 20000 && (sz <= 4096 || len(modelInputs) < 400) {
 				modelInputs = append(modelInputs, in)
@@ -898,7 +916,8 @@ func runC08(res *lp.Result) {
 						continue
 					}
 					out, err := dec(z)
-					if err != nil && c.name == "lz4" && lz4LibraryFails(in) {
+					if c.name == "lz4" && (err != nil || !bytes.Equal(out, in)) && lz4LibraryFails(in) {
+						// (the library alone, on the same bytes, fails or — worse — restores OTHER bytes without an error)
 						res.Add(lp.Finding{Kind: "violation", What: lz4LibraryWhat + ": " + format + " round trip fails", Input: id})
 						continue
 					}
